@@ -65,6 +65,12 @@ impl Report {
 
     /// Print result lines, fill in the evidence, write it, and return the exit code.
     pub fn finish(self, ev: &mut Evidence) -> i32 {
+        // replay files of earlier runs of this check are stale
+        if let Ok(rd) = std::fs::read_dir(self.replay_dir()) {
+            for e in rd.flatten() {
+                std::fs::remove_file(e.path()).ok();
+            }
+        }
         let mut known_summary = vec![];
         for (sig, (count, what, replay)) in &self.known_hits {
             let path = self.write_replay(&format!("known-{sig}"), what, replay);
